@@ -413,6 +413,11 @@ func TestVerif_C17(t *testing.T) {
 	}
 
 	c17Reentrancy(r)
+	{
+		l := r.newLocal(0)
+		c17SuffixChains(r, l)
+		r.merge(l)
+	}
 
 	// ---- cfgerrors.All on deep and wide join trees
 	r.Parallel(pick(r, 4, 16), func(l *Local) {
@@ -461,6 +466,65 @@ func TestVerif_C17(t *testing.T) {
 }
 
 // c17Reentrancy: see the comment inside.
+// c17SuffixChains: origin lists whose hosts form a chain of byte-suffixes of one long host (every suffix that is itself a
+// valid host), in ascending, descending and PRNG order: the deepest radix trees the grammar permits. Construction, requests
+// from the longest and the shortest origin, and the round trip through Config() must not panic
+// (lesson of seeded change C17-q: a "cannot happen" depth bound that counts labels where the tree splits at bytes).
+func c17SuffixChains(r *Run, l *Local) {
+	for _, base := range []string{longHost(253), strings.Repeat("a", 63) + "." + strings.Repeat("a", 63) + "." + strings.Repeat("a", 63) + "." + strings.Repeat("a", 61), strings.TrimSuffix(strings.Repeat("ab.", 84), "."), strings.Repeat("a.", 126) + "a"} {
+		var chain []string
+		for i := len(base) - 1; i >= 0; i-- {
+			suf := base[i:]
+			if suf[0] == '.' || suf[0] == '-' || strings.HasPrefix(suf, "xn--") || (len(suf) > 3 && suf[2] == '-' && suf[3] == '-') {
+				continue
+			}
+			if c := suf[strings.LastIndexByte(suf, '.')+1]; c >= '0' && c <= '9' {
+				continue // grey zone: last label starting with a digit
+			}
+			chain = append(chain, "http://"+suf)
+		}
+		orders := [][]string{chain, reversedStrings(chain), shuffled(l.Rng, chain), append(append([]string{}, chain[len(chain)/2:]...), chain[:len(chain)/2]...)}
+		for oi, list := range orders {
+			cfg := cors.Config{Origins: list}
+			cfg.DangerouslyTolerateInsecureOrigins = true
+			cfg.DangerouslyTolerateSubdomainsOfPublicSuffixes = true
+			l.counters["suffix_chain_lists"]++
+			var mw *cors.Middleware
+			r.Guard(func() any {
+				return c17Case{Config: cfgJSON(&cfg), Note: fmt.Sprintf("suffix chain of a %d-byte host, order %d", len(base), oi)}
+			}, func() {
+				l.evals++
+				m, err := cors.NewMiddleware(cfg)
+				if err != nil {
+					return // whether such a list is acceptable is C05's / C13's business
+				}
+				mw = m
+				for _, o := range []string{chain[len(chain)-1], chain[0], chain[len(chain)/2], "http://z" + base[1:]} {
+					w := newRW()
+					w.inner = &countingHandler{body: "ok"}
+					wrappedOnce(m).ServeHTTP(w, actualReq("GET", o).httpReq())
+					w = newRW()
+					w.inner = &countingHandler{body: "ok"}
+					wrappedOnce(m).ServeHTTP(w, preflightReq(o, "PUT", nil, false).httpReq())
+				}
+				if c := m.Config(); c != nil {
+					_ = m.Reconfigure(c)
+					_, _ = cors.NewMiddleware(*c)
+				}
+			})
+			_ = mw
+		}
+	}
+}
+
+func reversedStrings(a []string) []string {
+	out := make([]string, len(a))
+	for i, s := range a {
+		out[len(a)-1-i] = s
+	}
+	return out
+}
+
 func c17Reentrancy(r *Run) {
 	// ---- the middleware reconfigured FROM INSIDE an exchange: the ResponseWriter's methods (called by the middleware and
 	// by the wrapped handler on this very goroutine) call Reconfigure(nil) / Reconfigure(other) / SetDebug on the middleware
